@@ -204,6 +204,8 @@ fn footers_for(b: &Block) -> Vec<(Vec<u8>, bool)> {
         v.push((b"EST5EDT,M3.2.0,M11.1.0".to_vec(), false));
         v.push((b"<-03>3<-02>,M3.5.0/-2,M10.5.0/-1".to_vec(), true));
         v.push((b"AAA0BBB,J1/25,J300".to_vec(), true));
+        v.push((b"AAA0BBB,M3.2.0/-0:30,M11.1.0/-0:00:01".to_vec(), true));
+        v.push((b"AAA0BBB,M3.2.0/+0:30,M11.1.0/-167:59:59".to_vec(), true));
     } else {
         v.push((b"EST5".to_vec(), false));
         v.push((b"EST5EDT,M3.2.0,M11.1.0".to_vec(), false));
